@@ -122,6 +122,13 @@ deriving DecidableEq, Repr, Inhabited
 /-- `Result<Relation, Vec<Error>>` -/
 abbrev Res := Except (List Err) Rel
 
+instance : DecidableEq Res := fun a b =>
+  match a, b with
+  | .ok x, .ok y => if h : x = y then isTrue (by rw [h]) else isFalse (by intro e; cases e; exact h rfl)
+  | .error x, .error y => if h : x = y then isTrue (by rw [h]) else isFalse (by intro e; cases e; exact h rfl)
+  | .ok _, .error _ => isFalse (by intro e; cases e)
+  | .error _, .ok _ => isFalse (by intro e; cases e)
+
 /-- one call: `none` = out of fuel, else the store it leaves (also when it fails) and its result -/
 abbrev Out := Option (Store × Res)
 
@@ -523,6 +530,15 @@ def go (g : Nat) : Nat → Bool → Store → Ty → Ty → Out
 def unify (g f : Nat) (σ : Store) (t1 t2 : Ty) : Out := go g f false σ t1 t2
 /-- `unify_types_args(t1, t2)` -/
 def unifyArgs (g f : Nat) (σ : Store) (t1 t2 : Ty) : Out := go g f true σ t1 t2
+
+/-- a sequence of requests over one set of cells (what the type checker does to the store between two `substitute_type`s);
+a failed request leaves its bindings and checking goes on -/
+def runSeq (g f : Nat) : Store → List (Bool × Ty × Ty) → Option Store
+  | σ, [] => some σ
+  | σ, (k, a, b) :: rs =>
+    match go g f k σ a b with
+    | none => none
+    | some (σ', _) => runSeq g f σ' rs
 
 /-! ## `InferContext::substitute_type` on the rich types -/
 
